@@ -5,7 +5,7 @@
    Every reader operation is ONE atomic step (`respond`), so "for every interleaving" is "for every
    reachable state and every operation". Lock atomicity itself is the assumption (partial). *)
 From Coq Require Import List NArith ZArith Bool.
-From RV Require Import Base.KMap Base.Serial32 C11.Model C11.Proofs C13.Model C13.Proofs C15.Model C15.Proofs.
+From RV Require Import Base.KMap Base.Serial32 C11.Model C11.Proofs C13.Model C13.Proofs C15.Model C15.Proofs C15.Spec C15.SpecProofs.
 Import ListNotations.
 Local Open Scope N_scope.
 
@@ -42,6 +42,32 @@ Theorem C15_other_steps_keep_history : forall s t b,
   hst (mark_done s t) = hst s /\ hst (do_notify s b) = hst s.
 Proof. intros; split; reflexivity. Qed.
 
+(* the executable oracle (C15/Spec.v: what a client may observe, stated against the list of issued
+   versions only) accepts what the model answers at every gap of every cycle of every schedule; the
+   hypothesis on probes: counters below 2^32, and a conditional request answered 304 names the version
+   its validators came from (that the model's own validators do is C16's theorem) *)
+Theorem C15_model_satisfies_spec : forall c, c_keep c < H31 -> N.of_nat (length (c_cycles c)) <= M32 ->
+  inputs_ok c = true -> probes_ok (srv_init (c_keep c)) (c_cycles c) -> spec_okb (model_case c) = true.
+Proof. exact model_satisfies_spec. Qed.
+
+Theorem C15_each_reply_meets_oracle : forall s iss completed p, SRel s iss completed -> keep (hst s) < H31 ->
+  N.of_nat (length iss) <= M32 -> probe_ok s p ->
+  answer_ok (keep (hst s)) iss completed p (respond s p) = true.
+Proof. exact respond_ok. Qed.
+
+Example C15_oracle_nonvacuous :
+  let a := {| origins := [(1, tt)]; rkeys := []; aspas := [] |} in
+  let b := {| origins := [(2, tt)]; rkeys := []; aspas := [] |} in
+  let ps := [(PFull, AReady false); (PDelta (Some (true, 0)), AReady false); (PJson (Some 0) None (Some 0), AReady false);
+             (PDiff true 0, AReady false)] in
+  let gs := [(0, ps); (1, ps); (0, ps); (2, ps); (0, ps); (3, ps); (4, ps)] in
+  let c := {| c_keep := 3; c_cycles :=
+      [ {| a_data := a; a_ok := true; a_tupd := 5%Z; a_tdone := 6%Z; a_gaps := gs; a_notified := false; a_result_ok := false |};
+        {| a_data := b; a_ok := true; a_tupd := 7000000000%Z; a_tdone := 7000000001%Z; a_gaps := gs; a_notified := false; a_result_ok := false |};
+        {| a_data := a; a_ok := false; a_tupd := 0%Z; a_tdone := 0%Z; a_gaps := gs; a_notified := true; a_result_ok := true |} ] |} in
+  check_case (model_case c) = 0 /\ check_case c = 2.
+Proof. split; vm_compute; reflexivity. Qed.
+
 Example C15_nonvacuous :
   let a := {| origins := [(1, tt)]; rkeys := []; aspas := [] |} in
   let b := {| origins := [(2, tt)]; rkeys := []; aspas := [] |} in
@@ -52,6 +78,8 @@ Example C15_nonvacuous :
 Proof. repeat split. Qed.
 
 Check C15_replies_paired.
+Check C15_model_satisfies_spec : forall c, c_keep c < H31 -> N.of_nat (length (c_cycles c)) <= M32 ->
+  inputs_ok c = true -> probes_ok (srv_init (c_keep c)) (c_cycles c) -> spec_okb (model_case c) = true.
 Check C15_change_sets_exact : forall s w c d, SReach s w -> w <> [] -> keep (hst s) < H31 -> c < M32 ->
   delta_since (hst s) c = Some d ->
   exists g cur, In (c, g) w /\ current (hst s) = Some cur /\ papply g d = cur.
